@@ -143,6 +143,18 @@ func C17(ctx *core.Ctx) {
 	if gen == nil {
 		ctx.Unresolved("C17.R1", "op-id generator", sprintf("expected one string- or uint64-returning function drawing from atomic.AddUint64, found %d", nGen))
 	}
+	if gen != nil {
+		// the counter is 64 bits wide: a 32-bit one wraps after 2^32 contexts and
+		// hands out the ids of contexts that are still alive
+		wide := true
+		for _, c := range ssax.Calls(gen) {
+			if strings.HasPrefix(c.FullName(), "sync/atomic.Add") && !strings.HasSuffix(c.FullName(), "64") {
+				wide = false
+			}
+		}
+		ctx.Check(wide, "C17.R1", "getNextOpID › the counter is 64 bits wide", fnPos(r, gen), "atomic.AddUint64",
+			"op ids are drawn from a counter narrower than 64 bits: after 2^32 contexts the counter wraps and a new context gets the op id of one that is still alive (an in-flight or reused context) — 'different from every other one' fails, and the registry refuses the request as already in flight")
+	}
 	var counter *ssa.Global
 	genRecvIdx := -1 // the counter is the generator's parameter #genRecvIdx (method on a named counter type)
 	if gen != nil {
@@ -822,7 +834,7 @@ func opIDGenerator(r *RT) (*ssa.Function, int) {
 			continue
 		}
 		for _, c := range ssax.Calls(fn) {
-			if c.FullName() == "sync/atomic.AddUint64" {
+			if strings.HasPrefix(c.FullName(), "sync/atomic.Add") {
 				cands = append(cands, fn)
 				break
 			}
